@@ -163,7 +163,9 @@ def section_chunk(items, extra):
     from pedal.core.commands import clear_report, contextualize_report
     from pedal.source import separate_into_sections, next_section, verify
     out = []
-    for pi, bi, k in items:
+    for item in items:
+        pi, bi, k = item[:3]
+        after_stop = len(item) > 3 and item[3] == "stop"      # verify the WHOLE file after the walk was stopped
         pro, body = PROLOGUES[pi], SECTION_BODIES[bi]
         filler = "w = 0\n" if k == 2 else ""
         whole = pro + "##### Part 1\n" + (filler + "##### Part 2\n" if k == 2 else "") + body
@@ -183,6 +185,12 @@ def section_chunk(items, extra):
             separate_into_sections(independent=True, report=R)
             for _ in range(k):
                 next_section(report=R)
+            if after_stop:
+                from pedal.source import stop_sections
+                stop_sections(report=R)
+                # no section is active: the parser's verdict on the whole file, no offset
+                ev["cls"], ev["line"], ev["offset"] = wcls, wline, 0
+                cls = wcls
             before_ids = {id(f) for f in R.feedback}
             verify(report=R)
         except Exception as e:
